@@ -74,10 +74,10 @@ def make_case(rng, i, tier):
         else:
             lit = "".join(rng.choice([c for c in letters if c.isascii() and c.isalpha()] or ["a"]) for _ in range(rng.choice([1, 1, 2])))
             # both cases must be in the character set, otherwise "x"i and "x" denote the same language over it
-            cs = cs + [c for c in lit.swapcase() if c not in cs]
+            cs = cs + [c for c in dict.fromkeys(lit.swapcase()) if c not in cs]
             letters = [c for c in cs if c != " "]
             terms.append({"name": "TY", "kind": "str", "lit": lit, "ci": True, "ast": ("ilit", lit)})
-            terms.append({"name": "TZ", "kind": "str", "lit": lit, "ci": False, "ast": ("lit", lit)})
+            terms.append({"name": "TZ", "kind": "str", "lit": lit, "ci": False, "ast": _lit_ast(lit)})
     multi = [c for c in letters if len(c.encode()) >= 3]
     if len(multi) >= 2 and rng.random() < 0.6:
         # one terminal = a class over several 3-byte characters (shared lead byte, different continuation bytes)
